@@ -2,6 +2,7 @@ package harness
 
 import (
 	"os"
+	"sync/atomic"
 	"context"
 	"fmt"
 	"math"
@@ -22,6 +23,9 @@ import (
 
 	v1 "sigs.k8s.io/karpenter/pkg/apis/v1"
 	"sigs.k8s.io/karpenter/pkg/controllers/disruption"
+	"sigs.k8s.io/karpenter/pkg/controllers/dynamicresources/deviceallocation"
+	"sigs.k8s.io/karpenter/pkg/controllers/provisioning"
+	"sigs.k8s.io/karpenter/pkg/state/virtualpods"
 	ncdisruption "sigs.k8s.io/karpenter/pkg/controllers/nodeclaim/disruption"
 	"sigs.k8s.io/karpenter/pkg/controllers/nodeclaim/lifecycle"
 
@@ -475,6 +479,7 @@ func (m *recMethod) ComputeCommands(ctx context.Context, budgets map[string]int,
 	}
 	if len(r.Cmds) > 0 {
 		r.Snap = m.run.snapshot()
+		m.run.inStart.Store(true)
 	}
 	m.run.rounds = append(m.run.rounds, r)
 	if len(r.Cmds) > 0 {
@@ -513,6 +518,10 @@ type dRun struct {
 	buffer      map[string]int
 	window      time.Duration
 	podSeq      int
+	// where the system under test currently is (read by the fault matcher from controller goroutines)
+	inCtrl, inStart, inQueue atomic.Bool
+	// started: every command that entered the queue, as the queue holds it
+	started []*disruption.Command
 }
 
 // dSnap is the API state at one instant plus the harness-side facts.
@@ -807,6 +816,13 @@ func newDRunWith(s *dScenario, c *ev.Ctx, prepare func(*builtWorld)) *dRun {
 		}
 	}
 	w.Cluster.UpdateBufferPodCounts(copyIntMap(r.buffer))
+	r.wire()
+	return r
+}
+
+// wire builds the controllers under test on the world's current in-memory state (also used after a restart).
+func (r *dRun) wire() {
+	w, b := r.b.W, r.b
 	r.queue = disruption.NewQueue(w.Client, w.Recorder, w.Cluster, w.Clock, b.Provisioner)
 	inner := disruption.NewMethods(w.Clock, w.Cluster, w.Client, b.Provisioner, w.Provider, w.Recorder, r.queue)
 	var methods []disruption.Method
@@ -817,7 +833,19 @@ func newDRunWith(s *dScenario, c *ev.Ctx, prepare func(*builtWorld)) *dRun {
 	r.ctrl = disruption.NewController(w.Clock, w.Client, b.Provisioner, w.Provider, w.Recorder, w.Cluster, r.queue, w.Cost, disruption.WithMethods(methods...))
 	r.ncd = ncdisruption.NewController(w.Clock, w.Client, w.Provider)
 	r.lc = w.NewLifecycle(nil)
-	return r
+}
+
+// restart loses everything the controllers keep in memory: cluster state (marks, nominations), the orchestration
+// queue with its commands in flight, the provisioner and the method state.
+func (r *dRun) restart() {
+	w := r.b.W
+	w.RestartState()
+	r.b.Provisioner = provisioning.NewProvisioner(w.Client, w.Recorder, w.Provider, w.Cluster, w.Clock, deviceallocation.NewController(w.Client), virtualpods.NewVirtualPodCache(w.Client))
+	r.marked = map[string]bool{}
+	r.nominatedAt = map[string]time.Time{}
+	r.buffer = map[string]int{}
+	r.wire()
+	r.c.Class("restart")
 }
 
 func copyIntMap(m map[string]int) map[string]int {
@@ -972,16 +1000,32 @@ func (r *dRun) disruptOnce(mid *dMut) {
 	r.refreshConsolidatable()
 	before := len(r.rounds)
 	applied := false
-	w.RunBlocking(func() { _, _ = r.ctrl.Reconcile(w.Ctx) }, 5*time.Second, func(n int) {
+	r.inCtrl.Store(true)
+	defer func() { r.inCtrl.Store(false); r.inStart.Store(false) }()
+	w.RunBlocking(func() {
+		res, err := r.ctrl.Reconcile(w.Ctx)
+		if os.Getenv("VERIF_DBG") != "" {
+			fmt.Println("    DBG disruption reconcile ->", res, err)
+		}
+	}, 5*time.Second, func(n int) {
 		if mid != nil && !applied {
 			applied = true
 			r.c.Class("mid_wait_mutation")
 			r.mutate(*mid)
 		}
 	})
+	r.inCtrl.Store(false)
+	r.inStart.Store(false)
 	// which commands entered the queue; nominations made by StartCommand
 	inQueue := map[string]bool{}
 	for _, cmd := range r.queue.GetCommands() {
+		known := false
+		for _, k := range r.started {
+			known = known || k == cmd
+		}
+		if !known {
+			r.started = append(r.started, cmd)
+		}
 		for _, cn := range cmd.Candidates {
 			inQueue[cn.ProviderID()] = true
 		}
@@ -1048,7 +1092,9 @@ func (r *dRun) runQueue() {
 	sort.Slice(cmds, func(i, j int) bool { return cmds[i].Candidates[0].Name() < cmds[j].Candidates[0].Name() })
 	for _, cmd := range cmds {
 		nc := cmd.Candidates[0].NodeClaim
+		r.inQueue.Store(true)
 		w.RunBlocking(func() { _, _ = r.queue.Reconcile(w.Ctx, nc) }, time.Second, nil)
+		r.inQueue.Store(false)
 	}
 	w.Sync()
 }
@@ -1144,6 +1190,8 @@ func (r *dRun) play() {
 			}
 		case "provision":
 			r.provision()
+		case "restart":
+			r.restart()
 		}
 	}
 }
